@@ -400,6 +400,11 @@ func (e *IntEnv) structural(v ssa.Value, b *ssa.BasicBlock, depth int) Itv {
 			if i < len(x.Block().Preds) {
 				pb = x.Block().Preds[i]
 			}
+			// an edge taken only when a parameter had the value that a branch dominating b excludes was not taken
+			// (l := 4; if ipv6 { l = 16 } … if ipv6 { use of l }): parameters do not change
+			if pb != nil && b != nil && phiEdgeContradicts(pb, x.Block(), b) {
+				continue
+			}
 			var iv Itv
 			if depth > 6 {
 				iv = typeRange(ed.Type())
@@ -772,4 +777,27 @@ func sameQuietFieldLoad(a, b ssa.Value) bool {
 		}
 	})
 	return quiet
+}
+
+// phiEdgeContradicts: the edge pred→phiBlock is taken only under a test of a parameter whose outcome contradicts a
+// test of the same parameter that dominates block b.
+func phiEdgeContradicts(pred, phiBlock, b *ssa.BasicBlock) bool {
+	at := map[ssa.Value]bool{}
+	for _, g := range guardsOf(b) {
+		g = g.norm()
+		if _, isP := g.Cond.(*ssa.Parameter); isP {
+			at[g.Cond] = g.Pol
+		}
+	}
+	if len(at) == 0 {
+		return false
+	}
+	gs := append(append([]Guard{}, guardsOf(pred)...), expandGuards(edgeGuard(pred, phiBlock))...)
+	for _, g := range gs {
+		g = g.norm()
+		if pol, has := at[g.Cond]; has && pol != g.Pol {
+			return true
+		}
+	}
+	return false
 }
